@@ -19,6 +19,7 @@ Event parameters are modelled: `idle` includes "every Event parameter is in its 
 Not modelled (DESIGN.md): constructors, `edit_constant` (C14).
 -/
 import ParamVerif.Dispatch.Lemmas
+import ParamVerif.Dispatch.EventLemmas
 
 namespace ParamVerif.Dispatch
 
@@ -117,7 +118,45 @@ theorem event_modes_never_stick (c : Cfg) (f : Nat) (call : Call) (w : World)
     (h : (run c f call w).1 ≠ .oof) : ∀ p ∈ (run c f call w).2.1.setMode, p ∈ w.setMode :=
   setMode_subset c f call w h
 
+/-- **C05 (self-resetting Event parameters, the value).**  If every Event parameter that is not in
+mode 'set' reads False before a call, the same is true after it — however the call ends: a rejected
+key of an `update` that also names an Event, a callback raising while the Event holds its transient
+True, a context body that raises.  (`Event.__set__` resets in a `finally`; `_update` resets the Events
+it put in mode 'set' in a `finally`.) -/
+theorem event_parameters_reset_after_any_call (c : Cfg) (f : Nat) (call : Call) (w : World)
+    (hcall : ∀ p v, call ≠ .setPlain p v)
+    (hz : ∀ p, c.isEvent p = true → p ∉ w.setMode → getVal w p = 0)
+    (h : (run c f call w).1 ≠ .oof) :
+    ∀ p, c.isEvent p = true → p ∉ (run c f call w).2.1.setMode → getVal (run c f call w).2.1 p = 0 := by
+  have h0 : EvReset c [] w := fun p hp hm _ => hz p hp hm
+  have h1 := events_reset c f call w [] h h0
+  have hin : call.inflight = [] := by
+    cases call <;> first | rfl | exact absurd rfl (hcall _ _)
+  rw [hin] at h1
+  exact fun p hp hm => h1 p hp hm (by simp)
+
+/-- … so with an idle dispatcher: after any statement every Event parameter reads False again -/
+theorem event_parameters_read_false_when_idle (c : Cfg) (f : Nat) (s : Stmt) (w : World) (hi : idle w)
+    (hz : ∀ p, c.isEvent p = true → getVal w p = 0) (h : (run c f (.stmt s) w).1 ≠ .oof) :
+    ∀ p, c.isEvent p = true → getVal (run c f (.stmt s) w).2.1 p = 0 := by
+  intro p hp
+  have hidle := idle_in_idle_out c f s w hi h
+  exact event_parameters_reset_after_any_call c f (.stmt s) w (by intro p v; simp) (fun q hq _ => hz q hq) h p hp
+    (by rw [hidle.2.2.2.2]; simp)
+
 /-! ### Non-vacuity -/
+
+def c05EvCfg : Cfg := { bounds := [(some 0, some 1), (some 0, some 9)], bodies := [[.raise]], events := [0] }
+def c05EvWorld : World :=
+  { vals := [0, 0], batch := false, trigger := false, events := [], queued := [], regs := [mkW 0 [0] false false 0 0] }
+-- `update(e=True, x=12)`: the Event is applied, x is rejected (and the flush of e's watcher raises on top) —
+-- the Event reads False again and keeps resetting itself
+example : (run c05EvCfg 60 (.stmt (.update [(0, 1), (1, 12)])) c05EvWorld).1 = .raised .boom ∧
+          (run c05EvCfg 60 (.stmt (.update [(0, 1), (1, 12)])) c05EvWorld).2.1.vals = [0, 0] ∧
+          idle (run c05EvCfg 60 (.stmt (.update [(0, 1), (1, 12)])) c05EvWorld).2.1 := by decide
+-- `e = True` whose watcher raises while the Event reads True
+example : (run c05EvCfg 60 (.stmt (.set 0 1)) c05EvWorld).1 = .raised .boom ∧
+          (run c05EvCfg 60 (.stmt (.set 0 1)) c05EvWorld).2.1.vals = [0, 0] := by decide
 
 def c05Cfg : Cfg :=
   { bounds := [(some 0, some 9), (some 0, some 9)],
